@@ -41,8 +41,14 @@ def bool_switch_polarity(b, T, t):
 class GuardedStep(Rule):
     """Every Ok exit has passed `step` unless the guard is known to be on its bypass side.
     step(b, bi, t) -> bool ; guard_of(b, bi, t) -> {succ: guard value} | None for switches."""
-    def __init__(self, b, step, guard_of, bypass_value, also_at=None):
+    def __init__(self, b, step, guard_of, bypass_value, also_at=None, origin=None):
         self.b = b
+        # origin = (stmt predicate, call predicate) -> None | polarity: where the boolean the guard stands for is computed.  The
+        # exploration splits there (value true / false) and lets the constant environment decide every test derived from it,
+        # whatever shape the derivation takes (a flag, an enum built from it, a comparison with a variant)
+        if origin:
+            self.fork_stmt = lambda b_, bi, st, state: self._fork(origin[0](b_, bi, st), state)
+            self.fork_call = lambda b_, bi, t, state: self._fork(origin[1](b_, bi, t), state)
         self.step = step
         self.guard_of = guard_of
         self.bypass_value = bypass_value
@@ -51,6 +57,11 @@ class GuardedStep(Rule):
         self.violations = []
         self.ok_exits = 0
         self.steps_seen = 0
+
+    def _fork(self, polarity, state):
+        if polarity is None:
+            return None
+        return [(True, (state[0], bool(polarity), state[2])), (False, (state[0], not polarity, state[2]))]
 
     def on_stmt(self, b, bi, st, state):
         """track which variant an Option-typed local holds so that `if let Some(x) = local` after
@@ -148,6 +159,28 @@ def guard_block_device(T):
             return res
         return by_name(b, bi, t)
     return g
+
+
+def origin_block_device(T):
+    """where "the output is a block device" is computed: the statement comparing (a term containing) `st_mode()` with the
+    S_IFBLK pattern, or the call `file_type().is_block_device()`.  -> (stmt predicate, call predicate), each giving the
+    polarity (True: the boolean is true on a block device) or None"""
+    def at_stmt(b, bi, st):
+        if st['k'] != 'assign' or st['pl']['p'] or st['rv']['k'] != 'binop' or st['rv']['op'] not in ('Eq', 'Ne'):
+            return None
+        if b.lty(st['pl']['l']).get('k') != 'bool':
+            return None
+        ta = simplify(T.of_operand(b, st['rv']['a']))
+        tb = simplify(T.of_operand(b, st['rv']['b']))
+        if has_call(ta, 'st_mode') or has_call(tb, 'st_mode'):
+            return st['rv']['op'] == 'Eq'
+        return None
+
+    def at_call(b, bi, t):
+        if 'q' in t['callee'] and callee_q(t).endswith('::is_block_device') and b.lty(t['dest']['l']).get('k') == 'bool':
+            return True
+        return None
+    return at_stmt, at_call
 
 
 def guard_from_bool_field(T, field):
